@@ -11,7 +11,7 @@ EXPLANATION = ("C17 (partial): fraction<T>(float) is executed symbolically.  Dec
                "a value between the two integers adjacent to the input and within max(1,|x|)*2^(4-D) of it.  NOT decided: "
                "termination and the accuracy bound for inputs needing more than K iterations (unbounded floating-point "
                "loop; such paths are reported as 'bound-exceeded', never as success).")
-BOUNDS = {"quick": "T = int8_t from float: integer inputs (all), loop unrolled K = 2 (fractional inputs); T = int16_t from float / double: integer inputs",
+BOUNDS = {"quick": "T = int8_t from float: integer inputs (all), loop unrolled K = 2 (fractional inputs), exact ratios k/4 with |x| < 4 (exactness, 3-step termination as a claim); T = int16_t from float / double: integer inputs",
           "thorough": "K = 5 for int8_t, K = 3 for int16_t"}
 OPTS = {"quick": {"kernel_budget": 400, "timeout": 45}, "thorough": {"kernel_budget": 3000, "timeout": 300}}
 
@@ -29,6 +29,10 @@ def mk(name, T, F, family, K):
         c = [fpx.finite(x), z3.fpLEQ(z3.fpAbs(w), fpx.const(hi))]
         if family == "integer":
             c.append(z3.fpEQ(z3.fpRoundToIntegral(fpx.RTZ, w), w))
+        elif family == "quarters":
+            # exact ratios k/4 with |x| < 4: the search provably needs at most 3 mediant steps, so the unwinding bound
+            # is part of the claim (terminates=True: a feasible path beyond it is replayed on the real build)
+            c = [z3.Or(*[z3.fpEQ(x, z3.FPVal(k / 4.0, x.sort())) for k in range(-15, 16)])]
         else:
             c.append(z3.Not(z3.fpEQ(z3.fpRoundToIntegral(fpx.RTZ, w), w)))
         return z3.And(*c)
@@ -54,6 +58,8 @@ def mk(name, T, F, family, K):
               ("sign-of-input", z3.And(z3.Implies(z3.fpLT(w, fpx.const(0)), nb <= 0), z3.Implies(z3.fpGT(w, fpx.const(0)), nb >= 0)))]
         if family == "integer":
             cl.append(("exact-integer", z3.And(db == 1, z3.fpEQ(nw, w))))
+        elif family == "quarters":
+            cl.append(("exact-ratio", z3.fpEQ(nw, z3.fpMul(fpx.RNE, w, dw))))
         else:
             fl = z3.fpRoundToIntegral(fpx.RTN, w)
             ce = z3.fpRoundToIntegral(fpx.RTP, w)
@@ -65,14 +71,15 @@ def mk(name, T, F, family, K):
             cl.append(("accuracy-bound", z3.fpLT(err, z3.fpMul(fpx.RNE, tol, dw))))
         return cl
     return Kernel(name, [("x", F), OUT2], "i32", body, mode="bv", W=40, pre=pre, claims=claims, unwind=K, max_paths=4000, prune_timeout_ms=20000,
-                  desc="fraction<%s>(%s) %s inputs, K=%d" % (T, F, family, K), tags={"T": T, "F": F, "family": family, "K": K})
+                  terminates=(family == "quarters"), desc="fraction<%s>(%s) %s inputs, K=%d" % (T, F, family, K), tags={"T": T, "F": F, "family": family, "K": K})
 
 
 def kernels(opts):
     tier = opts["tier"]
     ks = [mk("K0", "i8", "f32", "integer", 3), mk("K1", "i16", "f32", "integer", 3), mk("K2", "i16", "f64", "integer", 3),
-          mk("K3", "i8", "f32", "fractional", 2 if tier == "quick" else 4)]
+          mk("K3", "i8", "f32", "fractional", 2 if tier == "quick" else 4), mk("Q0", "i8", "f32", "quarters", 3)]
     if tier != "quick":
+        ks.append(mk("Q1", "i16", "f64", "quarters", 3))
         ks.append(mk("K4", "i16", "f32", "fractional", 3))
         ks.append(mk("K5", "i32", "f64", "integer", 3))
     return ks
